@@ -123,7 +123,7 @@ def feed(ctx, ent, data, kind, stats, cname):
     _BL["i"] += 1
     arg = data
     if isinstance(data, bytes) and _BL["i"] % 8 == 0 and not ent.name.endswith("strings") and "pem" not in ent.name:   # PEM loaders are documented for str/bytes text only
-        arg = bytearray(data) if _BL["i"] % 16 else memoryview(data)      # bytes-like objects are legal inputs
+        arg = gen.pick_container(data, _BL["i"] // 8, wide=False)[1]      # bytes-like objects are legal inputs
     try:
         obj = ent.fn(arg)
         try:
